@@ -226,6 +226,11 @@ def _record(ctx, run, f, node, cnt, v):
             return
         run.violation("RF-IVL", key, "%s: %s" % (desc[:90], how), loc, witness={"function": f.name, "trusted_entry": t["why"]})
         return
+    from .. import normalize
+    if v.status == "unproven" and f.exprs[node]["k"] == "idx" and not normalize.known_subscript(f, canon(f, node)):
+        run.undecided("RF-IVL", key, "%s: a subscript that did not exist when the tables were confirmed, and no bound for its "
+                      "index is stated in %s() (%s): neither proven nor contradicted" % (desc[:80], f.name, v.why), loc)
+        return
     run.violation("RF-IVL", key, "%s: index interval %s against %d elements: %s" % (desc[:90], v.iv, cnt, v.why), loc,
                   witness={"function": f.name, "subscript": desc, "index_interval": list(v.iv) if v.iv else None,
                            "elements": cnt, "derivation": v.why})
